@@ -1481,8 +1481,16 @@ class _BlankScope:
         for d in ds:
             if d.kind == "param":
                 found.append(self.params.get(nm))
-            elif d.kind == "assign" and d.path == () and d.value is not None:
-                found.append(self.kind(d.value, depth + 1))
+            elif d.kind == "assign" and d.value is not None:
+                v = d.value
+                for i in d.path:        # `user, pw = self.username, self.password`
+                    if isinstance(v, (ast.Tuple, ast.List)) and isinstance(i, int) and i < len(v.elts) \
+                            and not any(isinstance(x, ast.Starred) for x in v.elts):
+                        v = v.elts[i]
+                    else:
+                        v = None
+                        break
+                found.append(self.kind(v, depth + 1))
             elif d.kind == "for" and d.value is not None:
                 b = self.kind(d.value, depth + 1)
                 if b is not None and "container" in b.kinds:
@@ -2222,3 +2230,5 @@ R.mutant("r6-reader-drops-blank-groups", URLPY,
 R.mutant("r6-create-rebinds-blank-username", URLPY,
          sub('        return cls(\n            cls._assert_str(drivername, "drivername"),\n',
              '        if not username:\n            username = None\n        return cls(\n            cls._assert_str(drivername, "drivername"),\n'), "C20-R6")
+R.mutant("r6-parts-writer-password-by-truthiness", URLPY,
+         sub(_W_BODY, _W_BODY_LIST.replace("            if pw is not None:\n", "            if pw:\n")), "C20-R6")
